@@ -485,7 +485,7 @@ def judge(p, pending, bad):
             seen.add(b)
             jobs.append(node.job_for(e["m"], b, e["calls"]))
             index.append((ei, b))
-    results = node.run(jobs)
+    results = node.run(jobs, timeout=240, on_hang="mark")
     by_entry = {}
     for (ei, b), r in zip(index, results):
         by_entry.setdefault(ei, {})[b] = r
@@ -493,6 +493,9 @@ def judge(p, pending, bad):
         rs = by_entry[ei]
         mine = rs[None]
         wit = e["wit"]
+        if mine.get("hang"):
+            p.count("reference_binary_does_not_terminate_in_v8")
+            continue
         if not mine["valid"] or (e["variants"] and mine["stage"] != "run"):
             p.count("reference_binary_rejected_by_v8")
             p.collect("reference_rejected", "%s: %s %s" % ("|".join(func_atoms(wit))[:80], mine["stage"], mine.get("error")))
@@ -506,6 +509,13 @@ def judge(p, pending, bad):
             w = dict(wit)
             w["style"] = style
             w["oracle"] = "text-to-binary"
+            if r.get("hang"):
+                p.violation("text-to-binary/behaviour/" + located,
+                            "binary from %s-style text does not terminate in V8 (no result after 30 s alone) while the reference binary finishes; first difference "
+                            "in %s section%s; ppci=%s ref=%s" % (style, sec, "" if fidx is None else " func %d" % fidx, b.hex(), e["ref"].hex()), w,
+                            order=p.evaluations + ORDER_BASE)
+                p.collect("failing_atoms:text-to-binary", "|".join(atoms))
+                continue
             if not r["valid"] or r["stage"] != "run":
                 p.violation("text-to-binary/v8-rejects/" + located,
                             "Module(wat).to_bytes() of %s-style text is rejected by V8 (%s: %s) while the reference binary is accepted; first difference "
